@@ -363,7 +363,8 @@ class Bin(Factory, Container):
         """
         if self.under(x) or self.over(x) or self.nan(x):
             return -1
-        return int(math.floor(self.num * (x - self.low) / (self.high - self.low)))
+        # for x within an ulp of high the quotient can round up to num: x < high always belongs to the last bin
+        return min(self.num - 1, int(math.floor(self.num * (x - self.low) / (self.high - self.low))))
 
     def under(self, x):
         """Return ``true`` iff ``x`` is in the underflow region (less than ``low``)."""
@@ -455,11 +456,14 @@ class Bin(Factory, Container):
 
         else:
             q = np.array(q, dtype=np.float64)
+            belowhigh = q < self.high
             np.subtract(q, self.low, q)
             np.multiply(q, self.num, q)
             np.divide(q, self.high - self.low, q)
             np.floor(q, q)
             q = np.array(q, dtype=int)
+            # same rounding guard as in bin(): a value below high whose quotient rounded up to num
+            q[np.bitwise_and(belowhigh, q >= self.num)] = self.num - 1
 
             for index, value in enumerate(self.values):
                 np.not_equal(q, index, selection)
